@@ -853,32 +853,69 @@ var ctxCtors = map[string]bool{
 	"context.WithCancel": true, "context.WithTimeout": true, "context.WithDeadline": true, "context.WithCancelCause": true,
 }
 
-// consumed: on every path from def to exit the value is called, deferred, stored, returned, captured or passed on.
+// consumed: on every path from def to exit the value is called, deferred, stored into a structure, returned,
+// captured or passed on. A store into a local variable cell is not consumption: the cell's loads and captures are.
 func (p *Prog) valueConsumedOnAllPaths(def ssa.Instruction, v ssa.Value) (bool, ssa.Instruction, []string) {
-	uses := usesOf(v)
 	useSet := map[ssa.Instruction]bool{}
 	var kinds []string
-	for _, u := range uses {
-		switch x := u.(type) {
-		case *ssa.Call, *ssa.Defer, *ssa.Go:
-			useSet[u] = true
-			kinds = append(kinds, "call/defer")
-		case *ssa.Store:
-			if x.Val == v || true {
+	seen := map[ssa.Value]bool{}
+	var consume func(x ssa.Value)
+	consume = func(x ssa.Value) {
+		if seen[x] {
+			return
+		}
+		seen[x] = true
+		refs := x.Referrers()
+		if refs == nil {
+			return
+		}
+		for _, u := range *refs {
+			switch y := u.(type) {
+			case *ssa.Call, *ssa.Defer, *ssa.Go:
+				useSet[u] = true
+				kinds = append(kinds, "call/defer")
+			case *ssa.Return:
+				useSet[u] = true
+				kinds = append(kinds, "return")
+			case *ssa.MakeClosure:
+				useSet[u] = true
+				kinds = append(kinds, "capture")
+			case *ssa.MapUpdate:
+				useSet[u] = true
+				kinds = append(kinds, "mapstore")
+			case *ssa.Store:
+				if y.Val != x {
+					continue
+				}
+				if cell, ok := y.Addr.(*ssa.Alloc); ok {
+					if _, isStruct := deref(cell.Type()).Underlying().(*types.Struct); !isStruct {
+						// local variable: follow its loads and captures
+						if crefs := cell.Referrers(); crefs != nil {
+							for _, cu := range *crefs {
+								switch z := cu.(type) {
+								case *ssa.MakeClosure:
+									useSet[cu] = true
+									kinds = append(kinds, "capture")
+								case *ssa.UnOp:
+									consume(z)
+								}
+							}
+						}
+						continue
+					}
+				}
 				useSet[u] = true
 				kinds = append(kinds, "store")
+			case *ssa.ChangeType:
+				consume(y)
+			case *ssa.MakeInterface:
+				consume(y)
+			case *ssa.Phi:
+				consume(y)
 			}
-		case *ssa.Return:
-			useSet[u] = true
-			kinds = append(kinds, "return")
-		case *ssa.MakeClosure:
-			useSet[u] = true
-			kinds = append(kinds, "capture")
-		case *ssa.MapUpdate:
-			useSet[u] = true
-			kinds = append(kinds, "mapstore")
 		}
 	}
+	consume(v)
 	bad := p.mustPass(def, func(i ssa.Instruction) bool { return useSet[i] }, false)
 	return bad == nil, bad, kinds
 }
@@ -1262,6 +1299,18 @@ func ruleOptionalSubMsgNilChecked(c *Ctx, rule string, fnFilter func(*ssa.Functi
 					if ef == sub && isParamRooted(rpc) {
 						guarded = true
 						why = "entry fact nonnil(rpc." + sub + ") established at every call site of " + p.fnKey(root)
+					}
+				}
+			}
+			if !guarded && sub == "Header" {
+				// a helper that receives the envelope: the fact may hold at every one of its call sites
+				if pr, isP := rpc.(*ssa.Parameter); isP && pr.Parent() == f {
+					for k, x := range f.Params {
+						if x == pr {
+							if ok, w := p.entryHeaderNonNil(f, k, 0); ok {
+								guarded, why = true, "entry fact: "+w
+							}
+						}
 					}
 				}
 			}
